@@ -15,7 +15,9 @@ for sid in sorted(os.listdir(os.path.join(ROOT, "seeded"))):
     und = m.get("undecided_by", [])
     res = m.get("last_evaluation", {}).get("results") or m.get("confirmed_by_me", {}).get("checks_against_change", {})
     ran = ", ".join(sorted(res.keys()))
-    if det:
+    if sid.startswith("benign"):
+        verdict = "**FALSE ALARM** under " + ", ".join(det) if det else ("exit 2 (undecided) under " + ", ".join(und) if und else "exit 0: still verified")
+    elif det:
         verdict = "**caught** by " + ", ".join(det)
     elif und:
         verdict = "undecided (exit 2) under " + ", ".join(und)
